@@ -29,6 +29,7 @@ ASSUMPTIONS = [
     "cycle-report and victim checks are applied only while the history is explained without any defect switch",
 ]
 MIN_NONTRIVIAL_FRACTION = 0.1
+RULE += " Added after the seeded rounds: " + 'Additionally a memoised breadth-first exploration of the whole state space of 2 operations x 2 resources (depth 5/7) and 3 operations x 2 resources with preemption (depth 4/6), and histories in which one operation is blocked on two different owners.'
 REQUIRED_LABELS = {"ref-cycle": 0.01}
 EXHAUSTIVE_NOTE = {"quick": "all acquire-only histories of depth 1..4 over 3 ops x 3 non-preemptable resources (9+81+729+6561 = 7380), complete",
                    "thorough": "all acquire-only histories of depth 1..6 over 3 ops x 3 non-preemptable resources (597870), complete"}
